@@ -103,6 +103,9 @@ def _abstract_args(name, args, kwargs, Table):
         if n not in (1, 2):
             return {"raw": True}
         return {"others": list("bc"[:n]), "axis": get(1, "axis", "sample"), "via": "method"}
+    if name == "align_to_dataframe":
+        index = _ids(getattr(get(0, "metadata"), "index", None))
+        return None if index is None else {"index": index, "axis": get(1, "axis", "sample")}
     if name in ("align_to", "sort", "subsample", "collapse"):
         return {"raw": True}
     if name == "transform":
@@ -133,7 +136,7 @@ def _wrap(name, fn, Table):
                     pre = {"a": _proj(self)}
                     for k, o in zip("bc", others):
                         pre[k] = _proj(o)
-                    ev = {"call": name, "recv": "a", "res": "r", "args": aargs, "pre": pre,
+                    ev = {"call": CALL_NAMES.get(name, name), "recv": "a", "res": "r", "args": aargs, "pre": pre,
                           "others": list("bc"[:len(others)])}
             except Exception:
                 ev = None
@@ -151,11 +154,18 @@ def _wrap(name, fn, Table):
                         post = {"a": _proj(self)}
                         for k, o in zip("bc", others):
                             post[k] = _proj(o)
+                        extra_obs = {}
+                        if name == "align_to_dataframe" and isinstance(ret, tuple) and len(ret) == 2:
+                            # (table, frame): the table is the result, the frame's index is an observation
+                            extra_obs["frame_index"] = _ids(ret[1].index)
+                            ret = ret[0]
                         if isinstance(ret, Table) and ret is not self and _small(ret):
                             post["r"] = _proj(ret)
-                        if all(v is not None for v in list(ev["pre"].values()) + list(post.values())):
+                        if all(v is not None for v in list(ev["pre"].values()) + list(post.values())
+                               + list(extra_obs.values())):
                             ev.update({"out": out, "post": post,
-                                       "obs": {"ret_is_recv": ret is self, "returned_table": isinstance(ret, Table)}})
+                                       "obs": dict({"ret_is_recv": ret is self, "returned_table": isinstance(ret, Table)},
+                                                   **extra_obs)})
                             _seq[0] += 1
                             ev["seq"] = _seq[0]
                             ev["pid"] = os.getpid()
@@ -169,7 +179,8 @@ def _wrap(name, fn, Table):
     return wrapper
 
 
-METHODS = ["filter", "remove_empty", "head", "sort_order", "sort", "transpose", "copy", "update_ids", "add_metadata",
+CALL_NAMES = {"align_to_dataframe": "align_df"}      # method name -> name of the model's action
+METHODS = ["align_to_dataframe", "filter", "remove_empty", "head", "sort_order", "sort", "transpose", "copy", "update_ids", "add_metadata",
            "del_metadata", "merge", "concat", "align_to", "transform", "norm", "pa", "subsample", "collapse"]
 
 
